@@ -43,6 +43,8 @@ def line(req):
     if op == 'visit':
         from . import real_disc
         return real_disc.visit_line(req)
+    if op == 'wlist':
+        return 'wlist ' + ('.'.join('W' if l == 'W' else 'S%d' % l for l in req[1]) or '_')
     if op in ('render', 'pvisit', 'ptruth', 'pauto', 'pautoh'):
         from . import real_disc
         return real_disc.prog_line(op, req[1]) + (' pmask' if False else '')
@@ -122,6 +124,8 @@ def parse_model(req, ml):
         return ('ok', int(toks[1]), toks[2] if len(toks) > 2 else '_')
     if op == 'render':
         return ('ok', ' '.join(toks[1:]))
+    if op == 'wlist':
+        return ('ok', tuple(int(x) for x in toks[1].split('.')) if toks[1] != '_' else ())
     if op in ('pyeq', 'pyne', 'hasheq'):
         if toks[0] == 'ok':
             return ('ok', toks[1] == 'true')
